@@ -5,6 +5,7 @@ import Spydr.Eblif.Props.C18Ports
 import Spydr.Eblif.Props.C18BlackBox
 import Spydr.Eblif.Props.C18FullParse
 import Spydr.Eblif.Props.C18GenDefs
+import Spydr.Eblif.Props.C18Mirror
 #print axioms Spydr.Eblif.lexB_printB
 #print axioms Spydr.Eblif.lexB_continuation
 #print axioms Spydr.Eblif.parse_comment_line
@@ -54,3 +55,6 @@ import Spydr.Eblif.Props.C18GenDefs
 #print axioms Spydr.Eblif.names_generated_ports
 #print axioms Spydr.Eblif.names_info_std
 #print axioms Spydr.Eblif.latch_generated_ports
+#print axioms Spydr.Eblif.pin_mirror
+#print axioms Spydr.Eblif.pin_mirror_elab
+#print axioms Spydr.Eblif.pin_mirror_bits
